@@ -1059,6 +1059,13 @@ pub fn mon_c11(log: &[Rec], f: &Flow, drained: bool, m: &mut Mon) {
                 });
             }
         }
+        // once the pending reboot question has been upgraded to on-demand it stays upgraded
+        if let Some(first_od) = wv.allowed.iter().position(|a| a.1) {
+            let later_all_od = wv.allowed[first_od..].iter().all(|a| a.1);
+            m.judge("c11-on-demand-upgrade-is-kept", later_all_od, "", || {
+                format!("reboot wait starting at seq {}: reboot_allowed questions (seq, on_demand, answer) {:?} fall back to ScheduledTask after the upgrade", wv.start_seq, wv.allowed)
+            });
+        }
         // an on-demand request answered during the reboot wait is followed by an on-demand reboot question
         for q in reqs.iter().filter(|q| q.on_demand && q.send_seq > wv.start_seq) {
             let Some((reply, _lo, hi)) = &q.reply else { continue };
